@@ -415,7 +415,8 @@ func C14(c *Ctx) {
 		if !ok || len(ret.Results) != 2 || ssau.IsNilConst(ret.Results[0]) {
 			continue
 		}
-		for _, v := range deepDefs(ret.Results[0], scope) {
+		// (a list kept in a field of a local record that helpers fill through a pointer is looked up in what they store)
+		for _, v := range resolveThroughLocals(ret.Results[0], scope) {
 			if ssau.IsNilConst(v) || seenLeaf[v] {
 				continue
 			}
